@@ -680,12 +680,13 @@ fn healthy_content(rng: &mut Rng, siblings: &[String]) -> String {
         0 => "return 1".to_owned(),
         1 => format!("local x = {}\nreturn x + 1\n", rng.below(100)),
         2 => "-- comment\nlocal function f(a, b)\n  assert(a, b)\n  return a\nend\nreturn f\n".to_owned(),
-        3 => "local select = 1\nlocal v = assert(f(), 'msg', select)\nreturn v\n".to_owned(),
+        3 => "local select, type = 1, 2\nlocal v = assert(f(), 'msg', select, type)\nreturn v\n".to_owned(),
         4 => "return { 'é', \"日本\", 3 }\n".to_owned(),
         5 if !siblings.is_empty() => {
             let s = rng.pick(siblings);
-            let stem = s.rsplit('/').next().unwrap().rsplit_once('.').map(|x| x.0).unwrap_or("m");
-            format!("local m = require('./{}')\nreturn m\n", stem)
+            // the full file name: a `.lua`/`.luau` extension is taken verbatim by the path require mode
+            let name = s.rsplit('/').next().unwrap();
+            format!("local m = require('./{}')\nreturn m\n", name)
         }
         _ => format!("print('{}')\n", rng.below(1000)),
     }
@@ -1081,7 +1082,10 @@ fn oracle(case: &Case, gen_faults: &BTreeMap<String, Fault>, real: &RunResult, s
 /// healthy files must come out exactly as in a run where the bad files are absent
 fn oracle_isolation(case: &Case, gen_faults: &BTreeMap<String, Fault>, real: &RunResult) -> Vec<(String, String)> {
     let mut broken = Vec::new();
-    if case.fail_fast || real.process_error.is_some() || real.panicked {
+    // with a configuration whose rules read other files (bundling, require conversion) a healthy
+    // file may legitimately depend on a file that is "bad" only as a work item (e.g. its
+    // destination is blocked): the deletion form of the statement is for per-file configurations
+    if case.fail_fast || real.process_error.is_some() || real.panicked || config_reads_other_files(case.config) {
         return broken;
     }
     let exp = expectation(case);
@@ -1155,7 +1159,13 @@ fn run_case(model: &mut Model, g: &Generated, rng: &mut Rng, listed: &BTreeSet<S
                 let s_shown = if case.fs { format!("<B>/{}", s) } else { s.clone() };
                 let d_shown = if case.fs { format!("<B>/{}", d) } else { d.clone() };
                 let d_parent = d_shown.rsplit_once('/').map(|x| x.0.to_owned()).unwrap_or_default();
-                if real_err_paths.iter().any(|p| *p == s_shown || *p == d_shown || *p == d_parent) {
+                // an error naming the source comes from reading/transforming it; an error naming the
+                // destination (or its parent) comes from the final write, i.e. from an item whose
+                // transformation succeeded
+                let t_ok = table.iter().any(|(p, _, r)| *p == s && r.is_ok());
+                let by_source = real_err_paths.iter().any(|p| *p == s_shown) && !t_ok;
+                let by_dest = real_err_paths.iter().any(|p| *p == d_shown || *p == d_parent) && t_ok;
+                if by_source || by_dest {
                     failing.push(i);
                 } else if real.after.get(&d) != initial.get(&d) {
                     written.push(i);
@@ -1188,6 +1198,10 @@ fn run_case(model: &mut Model, g: &Generated, rng: &mut Rng, listed: &BTreeSet<S
         (None, None) => {
             if real.panicked {
                 mismatch = Some("process panicked".to_owned());
+            } else if answer.tmiss > 0 && region.overlap && listed.contains("C11-F2") {
+                // inside the overlap class an output can become another item's source; `T` was
+                // only measured on the initial contents
+                out.counters.push(("explored_overlap_runs_needing_unmeasured_T".into(), 1));
             } else if answer.tmiss > 0 {
                 mismatch = Some(format!("the model asked T for {} unmeasured (path, content) pair(s)", answer.tmiss));
             } else {
@@ -1389,7 +1403,7 @@ fn reserved_globals_check(report: &mut Report, model: &mut Model) {
             for nested in [false, true] {
                 let mut code = String::new();
                 if shadowed {
-                    code.push_str("local select = 1\n");
+                    code.push_str("local select, type, assert_ = 1, 2, 3\n");
                 }
                 for i in 0..calls {
                     if nested {
@@ -1512,13 +1526,13 @@ pub fn run(report: &mut Report, replay: Option<&str>) {
     let mut model = Model::spawn();
     let listed = replay_known_findings(report, &mut model);
     reserved_globals_check(report, &mut model);
-    let mut rng = Rng::new(report.seed);
+    let mut rng = Rng::new(hash_of(&("C11", report.seed)));
     path_primitives_check(report, &mut model, &mut rng);
     drop(model);
 
     let thorough = report.is_thorough();
     let threads = 12usize;
-    let (mem_cases, fs_cases) = if thorough { (6000usize, 2400usize) } else { (700usize, 260usize) };
+    let (mem_cases, fs_cases) = if thorough { (120_000usize, 36_000usize) } else { (12_000usize, 3_600usize) };
     let mut handles = Vec::new();
     for t in 0..threads {
         let mut trng = Rng(rng.next_u64());
